@@ -88,8 +88,10 @@ class Holder:
 
 def build_aggregate(qr, rng, N, J=None, energies=None, reorg=None,
                     cortime=None, T=300.0, Nt=300, dt=2.0, mult=1,
-                    ftype="OverdampedBrownian"):
-    """Aggregate of N two-level molecules with overdamped Brownian baths."""
+                    ftype="OverdampedBrownian", share=None):
+    """Aggregate of N two-level molecules with overdamped Brownian baths.
+    `share` = list of bath indices per site: sites with the same index get
+    the SAME CorrelationFunction object (e.g. [0, 1, 0])."""
     ta = qr.TimeAxis(0.0, Nt, dt)
     if energies is None:
         energies = 12000.0 + rng.uniform(-250, 250, size=N)
@@ -99,11 +101,15 @@ def build_aggregate(qr, rng, N, J=None, energies=None, reorg=None,
         cortime = rng.uniform(40, 150, size=N)
     with qr.energy_units("1/cm"):
         mols = []
+        shared = {}
         for i in range(N):
             m = qr.Molecule([0.0, float(energies[i])])
-            cf = qr.CorrelationFunction(ta, dict(
-                ftype=ftype, reorg=float(reorg[i]), cortime=float(cortime[i]),
-                T=T, matsubara=20))
+            k = share[i] if share is not None else i
+            if k not in shared:
+                shared[k] = qr.CorrelationFunction(ta, dict(
+                    ftype=ftype, reorg=float(reorg[k]),
+                    cortime=float(cortime[k]), T=T, matsubara=20))
+            cf = shared[k]
             m.set_transition_environment((0, 1), cf)
             d = rng.randn(3)
             m.set_dipole(0, 1, list(d / numpy.linalg.norm(d)))
